@@ -16,9 +16,9 @@ def pcap_records(b):
     return out
 
 
-def run_both(c, src, files=None, budget=None, name='t'):
+def run_both(c, src, files=None, budget=None, name='t', prefill=None):
     """returns (impl, model): impl = dict(outcome, file), model = dict(outcome, file, warnings, times)"""
-    res = core.run_cli(src, files=files, name=name)
+    res = core.run_cli(src, files=files, name=name, prefill=prefill)
     impl_outcome = core.classify_cli(res)
     impl = dict(outcome=impl_outcome, file=res['pcap'], stdout=res['stdout'], stderr=res['stderr'], rc=res['rc'])
     mresp = c.model.ask(core.model_prog_req(src, budget, files))
